@@ -42,7 +42,7 @@ FUNCTIONS = [
 BOUNDS = [
     "constructor: Sensor / Dipole / Collection built with position of length 1-3 and 1-3 symbolic unit quaternions (any sign of the scalar part)",
     "old path length N in 1..3 (quick) / 1..5 (thorough), input length in {scalar,1,2,3} (thorough: ..5), start in [-5,5] (quick) / [-9,9] (thorough) plus 'auto'; "
-    "anchors {None, 0, single vector, per-step}; path contents, displacements, rotations, anchors symbolic (all reals / unit quaternions)",
+    "anchors {None, 0, single vector, per-step, the object's own .position view}; path contents, displacements, rotations, anchors symbolic (all reals / unit quaternions)",
     "one operation from an arbitrary state (inductive step); longer paths outside the claim",
 ]
 CUTS = [
@@ -66,7 +66,7 @@ def _Ns(tier):
 
 def cases(tier, seed):
     out = []
-    for op in ("move", "rotate-noanchor", "rotate-anchor0", "rotate-anchor1", "rotate-anchorN"):
+    for op in ("move", "rotate-noanchor", "rotate-anchor0", "rotate-anchor1", "rotate-anchorN", "rotate-anchorOwn"):
         for N in _Ns(tier):
             out.append({"id": f"{op}-N{N}", "kind": "step", "op": op, "N": N, "weight": 3})
     for N in _Ns(tier):
@@ -144,6 +144,12 @@ def _step(C):
                     anchor = symarr("a", (3,))
                     akw, n_a = anchor.copy(), None
                     inputs += list(anchor)
+                elif op == "rotate-anchorOwn":
+                    # the anchor argument is the object's own .position (the getter hands out a view of the path that is being rotated)
+                    if N > 1 and n_in != N:
+                        continue
+                    anchor = P[0].copy() if N == 1 else P.copy()
+                    akw, n_a = obj.position, (None if N == 1 else N)
                 else:
                     n_a = 2 if n_in != 2 else 3  # a per-step anchor of a different length than the rotation input
                     anchor = symarr("a", (n_a, 3))
@@ -480,6 +486,9 @@ def replay(spec):
                 elif op == "rotate-anchor1":
                     anchor = np.array([g(f"a_{c}") for c in range(3)])
                     akw = anchor
+                elif op == "rotate-anchorOwn":
+                    anchor = P[0].copy() if N == 1 else P.copy()
+                    akw, n_a = obj.position, (None if N == 1 else N)
                 else:
                     n_a = 2 if n_in != 2 else 3
                     anchor = np.array([[g(f"a_{i}_{c}") for c in range(3)] for i in range(n_a)])
